@@ -1,0 +1,1 @@
+//! Verification doors: rules (cfg(trusttunnel_verif) only)
